@@ -548,9 +548,7 @@ class Engine:
                 yield st, 'return', ret
                 return
             elif k == 'switch':
-                d = self.operand(st, frame, t['d'])
-                if d in st.facts:
-                    d = st.facts[d]
+                d = self.decide(st, self.operand(st, frame, t['d']))
                 val = None
                 if d[0] == 'int':
                     val = d[1]
@@ -596,9 +594,7 @@ class Engine:
                     yield from self.exec(body, frame, tb, st2, depth, stack)
                 return
             elif k == 'assert':
-                c = self.operand(st, frame, t['c'])
-                if c in st.facts:
-                    c = st.facts[c]
+                c = self.decide(st, self.operand(st, frame, t['c']))
                 if c[0] == 'bool':
                     if c[1] == t['e']:
                         bb = t['t']
@@ -620,6 +616,23 @@ class Engine:
             else:
                 yield st, ('panic', 'terminator ' + k), None
                 return
+
+    def decide(self, st, d):
+        """use what earlier tests on this path established"""
+        if d in st.facts:
+            return st.facts[d]
+        if d[0] == 'un' and d[1] == 'Not':
+            v = self.decide(st, d[2])
+            if v[0] == 'bool':
+                return t_bool(not v[1])
+        if d[0] == 'op' and d[1] in ('Eq', 'Ne') and d[3][0] == 'int':
+            x, K = d[2], d[3]
+            known = st.facts.get(x)
+            if known is not None and known[0] == 'int':
+                return t_bool((known[1] == K[1]) == (d[1] == 'Eq'))
+            if K[1] in st.facts.get(('ne', x), ()):
+                return t_bool(d[1] == 'Ne')
+        return d
 
     def learn(self, st, d, cv):
         """record the outcome of a test; (x == K) being true/false also tells something about x"""
@@ -766,6 +779,14 @@ class Engine:
             a = args[0]
             v = self.read(st, a[1]) if a[0] == 'ref' else ('deref', a)
             return ('ref', (('P', ('rcptr', v)), ()))
+        if p == 'core::slice::<impl [T]>::len' and args[0][0] == 'ref':
+            # the length of a slice made by from_raw_parts(ptr, n) is n
+            loc = args[0][1]
+            if loc[0][0] == 'P' and not loc[1] and loc[0][1][0] == 'ret':
+                ev = st.events[loc[0][1][1]]
+                if ev['kind'] == 'call' and ev['path'] in ('core::slice::raw::from_raw_parts', 'core::slice::raw::from_raw_parts_mut'):
+                    return ev['args'][1]
+            return None
         if name == 'into_iter' and rpath == '<I as core::iter::traits::collect::IntoIterator>::into_iter':
             return args[0]          # the blanket impl for iterators is the identity
         if p == 'core::option::Option::<T>::take' and args[0][0] == 'ref':
